@@ -1,5 +1,234 @@
-(* Eval18.v — evaluation of C18 observations (stub: replaced when C18 is built). *)
-From Verif Require Import Base Sexp.
+(* Eval18.v — evaluation of C18 observations.
+
+   (memhist (sig (TY..) NRES) FKIND VARIANT ((ARG..)..) (res ((DIRECT MEM)..) ((IDX SAME)..)))
+       one call history against the function returned by the generated deriveMem:
+       per call the arguments, what f returns when called directly (DIRECT) and what the memoised
+       function returned (MEM), each `(ret V..)` or `panic`; then the invocations of the
+       instrumented f made through the memoised function: index of the call during which it
+       happened, and whether f received exactly that call's arguments.
+       VARIANT = derived | coll (the emitted code with its hash call replaced by a constant).
+       The oracle f of the model is the table call-arguments -> DIRECT.
+   (gen (sig (TY..) NRES) CLASS)
+       goderive + go vet on a package that memoises one function of that signature. *)
+From Coq Require Import String.
+From Verif Require Import Base Sexp Go.Ty Go.Val Go.Equal Go.Compare Go.Hash Mem.Model.
 Open Scope string_scope.
 
-Definition eval18 (e : sexp) : verdict := bad_line.
+(* ---------- structural identity of values (labels included) ---------- *)
+Fixpoint val_eqb (x y : val) {struct x} : bool :=
+  let fix lst (a b : list val) : bool :=
+    match a, b with
+    | [], [] => true
+    | p :: a', q :: b' => (val_eqb p q && lst a' b')%bool
+    | _, _ => false
+    end in
+  match x, y with
+  | VBool a, VBool b => Bool.eqb a b
+  | VInt a, VInt b => Z.eqb a b
+  | VF n m, VF n' m' => (Bool.eqb n n' && N.eqb m m')%bool
+  | VC a b c d, VC a' b' c' d' => (Bool.eqb a a' && N.eqb b b' && Bool.eqb c c' && N.eqb d d')%bool
+  | VStr a, VStr b => bytes_eqb a b
+  | VNilP, VNilP => true
+  | VPtr l v, VPtr l' v' => (N.eqb l l' && val_eqb v v')%bool
+  | VNilS, VNilS => true
+  | VSl l es sp, VSl l' es' sp' => (N.eqb l l' && lst es es' && lst sp sp')%bool
+  | VNilM, VNilM => true
+  | VMap l kvs, VMap l' kvs' =>
+      (N.eqb l l' &&
+       (fix mp (a : list (val * val)) (b : list (val * val)) : bool :=
+          match a, b with
+          | [], [] => true
+          | kv :: a', kv' :: b' => (val_eqb (fst kv) (fst kv') && val_eqb (snd kv) (snd kv') && mp a' b')%bool
+          | _, _ => false
+          end) kvs kvs')%bool
+  | VArr a, VArr b => lst a b
+  | VSt a, VSt b => lst a b
+  | _, _ => false
+  end.
+
+Fixpoint list_eqb {A} (eqb : A -> A -> bool) (a b : list A) : bool :=
+  match a, b with
+  | [], [] => true
+  | x :: a', y :: b' => (eqb x y && list_eqb eqb a' b')%bool
+  | _, _ => false
+  end.
+Definition vals_eqb := list_eqb val_eqb.
+Definition outcome_eqb (a b : outcome (list val)) : bool :=
+  match a, b with
+  | Ret x, Ret y => vals_eqb x y
+  | Panic, Panic => true
+  | _, _ => false
+  end.
+
+(* ---------- printing (only for the replay file) ---------- *)
+Fixpoint val_sexp (v : val) : sexp :=
+  let nn (n : N) := Num (Z.of_N n) in
+  match v with
+  | VBool b => L [Sym "b"; of_bool b]
+  | VInt z => L [Sym "i"; Num z]
+  | VF n m => L [Sym "f"; of_bool n; nn m]
+  | VC a b c d => L [Sym "c"; of_bool a; nn b; of_bool c; nn d]
+  | VStr s => L (Sym "s" :: map nn s)
+  | VNilP => Sym "nilp"
+  | VPtr l x => L [Sym "p"; nn l; val_sexp x]
+  | VNilS => Sym "nils"
+  | VSl l es sp => L [Sym "sl"; nn l; L (map val_sexp es); L (map val_sexp sp)]
+  | VNilM => Sym "nilm"
+  | VMap l kvs => L [Sym "m"; nn l; L (map (fun kv => L [val_sexp (fst kv); val_sexp (snd kv)]) kvs)]
+  | VArr es => L (Sym "a" :: map val_sexp es)
+  | VSt fs => L (Sym "st" :: map val_sexp fs)
+  end.
+Definition outcome_sexp (o : outcome (list val)) : sexp :=
+  match o with Ret vs => L (Sym "ret" :: map val_sexp vs) | Panic => Sym "panic" end.
+
+(* ---------- parsing ---------- *)
+Definition parse_outcome (e : sexp) : option (outcome (list val)) :=
+  match e with
+  | Sym s => if String.eqb s "panic" then Some Panic else None
+  | L (Sym s :: vs) => if String.eqb s "ret" then option_map Ret (map_opt parse_val vs) else None
+  | _ => None
+  end.
+
+Definition parse_sig (e : sexp) : option (list ty * nat) :=
+  match e with
+  | L [Sym s; L tys; Num n] =>
+      if String.eqb s "sig" then
+        match map_opt parse_ty tys with Some ps => Some (ps, Z.to_nat n) | None => None end
+      else None
+  | _ => None
+  end.
+
+Definition parse_args (e : sexp) : option (list val) :=
+  match e with L vs => map_opt parse_val vs | _ => None end.
+Definition parse_dm (e : sexp) : option (outcome (list val) * outcome (list val)) :=
+  match e with
+  | L [d; m] => match parse_outcome d, parse_outcome m with Some d', Some m' => Some (d', m') | _, _ => None end
+  | _ => None
+  end.
+Definition parse_fcall (e : sexp) : option (nat * bool) :=
+  match e with L [Num i; Num s] => Some (Z.to_nat i, Z.eqb s 1) | _ => None end.
+
+(* ---------- the oracle: f as the table observed by calling it directly ---------- *)
+Definition f_tab (tab : list (list val * outcome (list val))) (a : list val) : outcome (list val) :=
+  match find (fun e => vals_eqb (fst e) a) tab with Some e => snd e | None => Panic end.
+
+Fixpoint forall_pairs {A} (p : A -> A -> bool) (l : list A) : bool :=
+  match l with [] => true | x :: l' => (forallb (p x) l' && forall_pairs p l')%bool end.
+Fixpoint exists_pair {A} (p : A -> A -> bool) (l : list A) : bool :=
+  match l with [] => false | x :: l' => (existsb (p x) l' || exists_pair p l')%bool end.
+
+Definition form_tag (ps : list ty) : string :=
+  match form_of ps, ps with
+  | FZero, _ => "zero"
+  | FMap, [_] => "map1"
+  | FMap, _ => "mapN"
+  | FBuck, [_] => "bucket1"
+  | FBuck, _ => "bucketN"
+  end.
+Definition nat_tag (n : nat) : string :=
+  match n with 0 => "0" | 1 => "1" | 2 => "2" | 3 => "3" | _ => "4+" end%nat.
+
+Definition coll_hash : N := 7.
+
+Definition eval_hist (ps : list ty) (nres : nat) (fkind variant : string)
+    (calls : list (list val)) (dms : list (outcome (list val) * outcome (list val)))
+    (fcalls : list (nat * bool)) : verdict :=
+  let h := calls in
+  let directs := map fst dms in
+  let mems := map snd dms in
+  let tab := combine h directs in
+  let f := f_tab tab in
+  let keq := args_equal ps in
+  let coll := String.eqb variant "coll" in
+  let hashr := if coll then (fun _ : val => Ok coll_hash) else (fun k => hashm [] (key_ty ps) k) in
+  let typed := (forallb (args_typed ps) h && Nat.eqb (List.length dms) (List.length h))%bool in
+  let real_calls := map (fun ib => nth (fst ib) h []) fcalls in
+  let sames := forallb (fun ib => (snd ib && Nat.ltb (fst ib) (List.length h))%bool) fcalls in
+  (* --- specification, from the property text --- *)
+  let respects := forall_pairs (fun p q => (negb (keq (fst p) (fst q)) || outcome_eqb (snd p) (snd q))%bool) tab in
+  let ret_by_class := forall_pairs (fun p q => (negb (keq (fst p) (fst q))
+                                      || Bool.eqb (returns f (fst p)) (returns f (fst q)))%bool) tab in
+  let obs_ok := (negb respects || list_eqb outcome_eqb mems directs)%bool in
+  let calls_ok := (negb ret_by_class || list_eqb vals_eqb real_calls (spec_calls f keq h))%bool in
+  let count_ok := (negb ret_by_class ||
+                   forallb (fun a => Nat.eqb (count_class keq a real_calls)
+                                       (if returns f a then 1%nat else count_class keq a h)) h)%bool in
+  let spec_ok := (obs_ok && calls_ok && count_ok && sames)%bool in
+  (* --- model --- *)
+  let m := mem_run_with hashr ps f h in
+  let hit := Nat.ltb (List.length fcalls) (List.length h) in
+  let eqni := exists_pair (fun a b => (keq a b && negb (vals_eqb a b))%bool) h in
+  let pan := existsb (fun d => match d with Panic => true | _ => false end) directs in
+  let tag := "mem/" ++ form_tag ps ++ "/res" ++ nat_tag nres ++ "/" ++ fkind ++ "/" ++ variant
+             ++ (if hit then "/hit" else "/nohit") ++ (if eqni then "/equal-not-identical" else "")
+             ++ (if respects then "" else "/f-separates-equal-args") ++ (if pan then "/f-panics" else "") in
+  match m with
+  | Ok (st, outs) =>
+      {| v_known := true;
+         v_model_ok := (list_eqb outcome_eqb outs mems && list_eqb vals_eqb (rev (log st)) real_calls && sames)%bool;
+         v_spec_ok := spec_ok;
+         v_guard := typed;
+         v_model := L [Sym "res"; L (map outcome_sexp outs); L (map (fun a => L (map val_sexp a)) (rev (log st)))];
+         v_tag := tag |}
+  | Unsup =>
+      (* the generator refuses Equal/Hash of the key type: not a signature of the property *)
+      {| v_known := true; v_model_ok := true; v_spec_ok := spec_ok; v_guard := false;
+         v_model := Sym "unsupported"; v_tag := tag ++ "/unsupported-key" |}
+  | _ =>
+      {| v_known := typed; v_model_ok := false; v_spec_ok := spec_ok; v_guard := false;
+         v_model := Sym "stuck"; v_tag := tag ++ "/stuck" |}
+  end.
+
+(* is the signature one the generator accepts (bucket form: Equal and Hash of the key type) *)
+Definition sig_supported (ps : list ty) : bool :=
+  match form_of ps with
+  | FBuck => (eq_sup [] Top (key_ty ps) && hash_sup (key_ty ps))%bool
+  | _ => true
+  end.
+
+Definition eval_gen (ps : list ty) (nres : nat) (cls : string) : verdict :=
+  let sup := sig_supported ps in
+  let real_ok := String.eqb cls "ok" in
+  let real_illformed := String.eqb cls "not-wellformed" in
+  let real_err := String.eqb cls "generator-error" in
+  let crash := (String.eqb cls "panic" || String.eqb cls "timeout")%bool in
+  let tagb := form_tag ps ++ "/res" ++ nat_tag nres in
+  if sup then
+    (* the property: the emitted code is well-formed for every form and number of results;
+       model: the repaired generator [gen_wellformed]; the pinned generator [gen_wellformed_old]
+       is ill-formed exactly in the class of the known finding *)
+    let old_bad := negb (gen_wellformed_old ps nres) in
+    {| v_known := true;
+       v_model_ok := (if real_ok then gen_wellformed ps nres
+                      else if real_illformed then old_bad else crash);
+       v_spec_ok := (real_ok || crash)%bool;
+       (* the class of the known finding (pinned generator ill-formed, and the real one is) lies
+          outside the guard: it is reported through its tag, as a known finding when listed as
+          open, as a violation otherwise *)
+       v_guard := negb (old_bad && real_illformed);
+       v_model := Sym (if gen_wellformed ps nres then "ok" else "not-wellformed");
+       v_tag := (if old_bad then "known:mem-noresult-noncomparable-illformed/" else "gen/") ++ tagb
+                ++ (if crash then "/generator-crash-see-C09" else "") |}
+  else
+    let ok := (crash || real_err)%bool in
+    {| v_known := true; v_model_ok := ok; v_spec_ok := ok; v_guard := true;
+       v_model := Sym "generator-error"; v_tag := "gen/unsupported-key/" ++ tagb |}.
+
+Definition eval18 (e : sexp) : verdict :=
+  match e with
+  | L [Sym k; sg; Sym fkind; Sym variant; L calls; L [Sym _; L dms; L fcalls]] =>
+      if String.eqb k "memhist" then
+        match parse_sig sg, map_opt parse_args calls, map_opt parse_dm dms, map_opt parse_fcall fcalls with
+        | Some (ps, nres), Some cs, Some dms', Some fcs => eval_hist ps nres fkind variant cs dms' fcs
+        | _, _, _, _ => bad_line
+        end
+      else bad_line
+  | L [Sym k; sg; Sym cls] =>
+      if String.eqb k "gen" then
+        match parse_sig sg with
+        | Some (ps, nres) => eval_gen ps nres cls
+        | None => bad_line
+        end
+      else bad_line
+  | _ => bad_line
+  end.
